@@ -139,6 +139,8 @@ cdef class DNSRRSet:
 
     @cython.locals(
         record=DNSRecord,
+        known=DNSRecord,
+        lookup=cython.dict,
         record_sets=cython.list,
     )
     cdef cython.dict _get_lookup(self)
